@@ -147,8 +147,11 @@ MUTANTS = [
     ('C15', 'no-close-fallback', (R, WRAPPERS, "                else:\n                    self.close = True\n", "                else:\n                    pass\n"), 'C15.a'),
     # ---- C16
     ('C16', 'revert-containment', ('revert', '537c81e'), 'C16.a'),
-    ('C16', 'revert-clamp', ('revert', 'f622a80'), 'C16.c'),
+    ('C16', 'stop-not-clamped', (R, UTILS, "            stop = min(stop, content_length - 1)\n", ""), 'C16.c'),
+    ('C16', 'suffix-start-not-clamped', (R, UTILS, "            start = max(content_length - suffix, 0)", "            start = content_length - suffix"), 'C16.c'),
+    ('C16', 'reversed-before-unsatisfiable', (R, UTILS, "            if start >= content_length:", "            if stop >= start and start >= content_length:"), 'C16.c'),
     ('C16', 'revert-valueerror', ('revert', '78f96f7'), 'C16.b'),
+    ('C16', 'revert-suffix-sign', ('revert', 'fb50a8f'), 'C16.c'),
     ('C16', 'bare-prefix', (R, STATIC, "not location.startswith(self.docroot.rstrip(os.sep) + os.sep)", "not location.startswith(self.docroot)"), 'C16.a'),
     ('C16', 'content-range-off-by-one', (R, TOOLS, "response.headers['Content-Range'] = f'bytes {start}-{stop - 1}/{c_len}'", "response.headers['Content-Range'] = f'bytes {start}-{stop}/{c_len}'"), 'C16.d'),
     # ---- C17
